@@ -100,6 +100,10 @@ type simpleRequest struct {
 	resp       *RespValue
 	hooks      []func(*simpleRequest)
 	done       chan struct{}
+
+	// cpsDone reports whether the compress filter has already handled the
+	// request, the filter chain runs again when the request is redirected.
+	cpsDone bool
 }
 
 func newSimpleRequest(v *RespValue) *simpleRequest {
